@@ -1049,6 +1049,50 @@ func gen(g *hx.Gen) {
 	}
 	g.Exhaustive("Rank of the sets of rank C(l,k)-1, C(l,k), C(l,k)+1 for k = 2..33 and l within 3 of the thresholds C(l,k) <= MaxInt and k*C(l,k) <= MaxInt")
 
+	// ---- long sets whose rank SUM crosses MaxInt, 2^64, 2^64 + 2^63 and 2^65 while every single term
+	// C(c_i, i+1) stays far inside the range of Coeff: the shifted initial segments {s..s+k-1} (rank
+	// C(s+k,k)-1) for k = 34..800, s just below / at / above the least shift whose rank reaches the
+	// target.  A sum kept in a wider or unsigned accumulator, checked once at the end, or checked
+	// for a single wrap only, is wrong exactly here (the wrapped value can land anywhere in int).
+	{
+		one := big.NewInt(1)
+		targets := []*big.Int{
+			new(big.Int).Lsh(one, 63), new(big.Int).Lsh(one, 64),
+			new(big.Int).Add(new(big.Int).Lsh(one, 64), new(big.Int).Lsh(one, 63)), new(big.Int).Lsh(one, 65),
+		}
+		for _, k := range []int{34, 40, 50, 64, 100, 128, 166, 200, 256, 300, 453, 512, 738, 800} {
+			for _, T := range targets {
+				sh := -1
+				for s0 := 0; s0 <= 4000; s0++ {
+					r := new(big.Int).Binomial(int64(s0+k), int64(k))
+					r.Sub(r, one)
+					if r.Cmp(T) >= 0 {
+						sh = s0
+						break
+					}
+				}
+				if sh < 0 {
+					continue
+				}
+				for d := -1; d <= 1; d++ {
+					if sh+d < 0 {
+						continue
+					}
+					strs := make([]string, k)
+					for j := range strs {
+						strs[j] = strconv.Itoa(sh + d + j)
+					}
+					emit("R;%s", strings.Join(strs, " "))
+					// the same with the least element pulled down to 0 (one term changes)
+					if sh+d > 0 {
+						strs[0] = "0"
+						emit("R;%s", strings.Join(strs, " "))
+					}
+				}
+			}
+		}
+	}
+
 	// ---- sizes across the thresholds 8, 16, ..., 1024: Rank of the shifted initial segments
 	// {s..s+k-1} (rank C(s+k,k)-1) and Unrank of small and of large ranks with that many elements
 	for sz := 8; sz <= g.Pick(1024, 4096); sz *= 2 {
